@@ -9082,9 +9082,11 @@ output_quoted(ostream &out, int indent_level, const std::string &str,
       break;
 
     default:
-      if (!isprint(*si)) {
-        out << "\\" << oct << std::setw(3) << std::setfill('0') << (unsigned int)(*si)
-            << dec;
+      if (!isprint((unsigned char)*si)) {
+        // Go through unsigned char, so that bytes above 127 (such as UTF-8
+        // sequences) do not become an out-of-range escape code.
+        out << "\\" << oct << std::setw(3) << std::setfill('0')
+            << (unsigned int)(unsigned char)(*si) << dec;
       } else {
         out << *si;
       }
